@@ -37,6 +37,8 @@ def collect(chk, prop):
                 traces.append(tr)
     chk.exhaustive["every ordered pair of same-topology edges as first proposal on the %d networks of the MC family" % len(family())] = True
     chk.extra["first_swap_proposals_not_swappable"] = aborted
+    from .. import crash
+    crash.mc(chk)
     # (2) code -> spec: seeded runs with the recording wrapper, every history length up to the limit is in the trace
     plans = []
     for i in range(900 if thorough else (150 if prop == "C11" else 90)):
@@ -80,6 +82,9 @@ def collect(chk, prop):
             es0, jd0, _t = R.clean_network(rng, n, sizes, dens, names=names)
             if len(es0) >= 4:
                 case["pre"] = {"edges": es0, "jd": jd0, "limit": rng.choice([0, 2, 4]), "seed": rng.randrange(1 << 30)}
+        if "pre" not in case and rng.random() < 0.3:
+            case["pre_abort"] = rng.random()
+            case["pre_abort_seed"] = rng.randrange(1 << 30)
         tr = R.execute(case)
         if tr["timeout"]:
             timeouts += 1
